@@ -457,6 +457,27 @@ def eval_proposal(ctx, case):
     ok = (got[0] == exp[0] == 'none') or (got[0] == exp[0] == 'val' and near(got[1], exp[1], 1.0, 1e-12))
     if not ok:
         ctx.violation(case, {'why': f"the rule proposed {got}, documented {exp} (position {case['pos']} rad, load {case['load']} Nm)"})
+    if ctx.driver.available:
+        # the same question to the Lean model (`Rule.apply` with exact comparisons: every operand is in SI units)
+        R_ = R
+        tg = R_(rl['target'][0])
+        if rl['type'] == 'reach':
+            tok = f"R:{rl['enc']}:{tg}:{R_(rl['brake'][0])}:1:0"
+        elif rl['type'] == 'prop':
+            tok = f"P:{rl['enc']}:{tg}:{R_(rl['mult'])}:{R_(rl['pmin'])}:1:0"
+        else:
+            tok = f"L:{rl['enc']}:{rl['tach']}:{tg}:{R_(rl['ilim'][0])}:1:0"
+        line = (f"k w0=100 tmax=1 i0=1/4 imax=4 links=1:1:1:1 rules={tok} t=0 pos={R_(case['pos'])},{R_(case['pos'])} "
+                f"speed={R_(case['speed'])},{R_(case['speed'])} load0={R_(case['load'])} fl0={R_(case['load'])}")
+        ans = ctx.driver.ask([line])[0]
+        w = ans.split()
+        model = None
+        if w and w[0] == 'ok' and w[-1].startswith('props='):
+            pv = w[-1][6:]
+            model = ('none',) if pv == '-' else ('nan',) if pv == 'nan' else ('val', float(pv))
+        same = model is not None and model[0] == got[0] and (model[0] != 'val' or near(model[1], got[1], 1.0, 1e-12))
+        if not same:
+            ctx.mismatch(case, {'impl': got}, ans[:200])
 
 
 def proposal_cases(ctx):
